@@ -503,13 +503,25 @@ pub fn execute_edit(case: &EditCase, stats: &mut Stats, work: &Path) -> Option<V
         }
         // ---- queries over all character boundaries ----
         let orig = &round.text;
+        // a quarter of the rounds put the questions to a copy of the finished buffer (copies are what result
+        // lists keep): a copy must answer exactly like the buffer it was taken from
+        let copy = if fnv1a(text.as_bytes()) % 4 == 0 {
+            stats.inc("reach.queried_a_copy");
+            match catch(|| buf.clone()) {
+                Ok(c) => Some(c),
+                Err(p) => return viol("panic", &p.site, op, json!({"stage":"clone","message":p.msg})),
+            }
+        } else {
+            None
+        };
+        let qb = copy.as_ref().unwrap_or(&buf);
         let q = catch(|| -> Result<u64, (String, String, Value)> {
-            let cur = buf.current().to_string();
+            let cur = qb.current().to_string();
             let bnd = boundaries(&cur);
             let mut h = fnv1a(cur.as_bytes());
             let mut prev = 0usize;
             for (ci, &b) in bnd.iter().enumerate() {
-                let o = buf.get_original_index(b);
+                let o = qb.get_original_index(b);
                 h = fnv_mix(h, o as u64);
                 if o < prev {
                     return Err(("not-monotone".into(), "m2o".into(), json!({"at": b, "maps_to": o, "previous": prev})));
@@ -518,39 +530,39 @@ pub fn execute_edit(case: &EditCase, stats: &mut Stats, work: &Path) -> Option<V
                 if o > orig.len() || !orig.is_char_boundary(o) {
                     return Err(("boundary-to-non-boundary".into(), "m2o".into(), json!({"at": b, "maps_to": o})));
                 }
-                let ob = buf.to_orig_byte_idx(ci);
+                let ob = qb.to_orig_byte_idx(ci);
                 if ob != o {
                     return Err(("char-offset-mismatch".into(), "to_orig_byte_idx".into(), json!({"char": ci, "got": ob, "expected": o})));
                 }
-                let oc = buf.to_orig_char_idx(ci);
+                let oc = qb.to_orig_char_idx(ci);
                 let expect_c = orig[..o].chars().count();
                 if oc != expect_c {
                     return Err(("char-offset-mismatch".into(), "to_orig_char_idx".into(), json!({"char": ci, "got": oc, "expected": expect_c, "orig_byte": o})));
                 }
-                if b < cur.len() && buf.ch_idx(b) != ci {
-                    return Err(("char-offset-mismatch".into(), "ch_idx".into(), json!({"byte": b, "got": buf.ch_idx(b), "expected": ci})));
+                if b < cur.len() && qb.ch_idx(b) != ci {
+                    return Err(("char-offset-mismatch".into(), "ch_idx".into(), json!({"byte": b, "got": qb.ch_idx(b), "expected": ci})));
                 }
             }
-            if buf.get_original_index(0) != 0 {
-                return Err(("start-not-anchored".into(), "m2o".into(), json!({"maps_to": buf.get_original_index(0)})));
+            if qb.get_original_index(0) != 0 {
+                return Err(("start-not-anchored".into(), "m2o".into(), json!({"maps_to": qb.get_original_index(0)})));
             }
-            if buf.get_original_index(cur.len()) != orig.len() {
-                return Err(("end-not-anchored".into(), "m2o".into(), json!({"maps_to": buf.get_original_index(cur.len()), "expected": orig.len()})));
+            if qb.get_original_index(cur.len()) != orig.len() {
+                return Err(("end-not-anchored".into(), "m2o".into(), json!({"maps_to": qb.get_original_index(cur.len()), "expected": orig.len()})));
             }
             // ranges: slices of the original are well formed and consistent with the map
             for i in 0..bnd.len() {
                 for j in i..bnd.len().min(i + 4) {
-                    let rg = buf.to_orig(bnd[i]..bnd[j]);
+                    let rg = qb.to_orig(bnd[i]..bnd[j]);
                     if rg.start > rg.end {
                         return Err(("not-monotone".into(), "to_orig".into(), json!({"range": [bnd[i], bnd[j]], "maps_to": [rg.start, rg.end]})));
                     }
-                    let s = buf.orig_slice(bnd[i]..bnd[j]);
+                    let s = qb.orig_slice(bnd[i]..bnd[j]);
                     if s != &orig[rg.clone()] {
                         return Err(("text-differs-from-model".into(), "orig_slice".into(), json!({"range": [bnd[i], bnd[j]]})));
                     }
                 }
             }
-            if buf.original() != orig {
+            if qb.original() != orig {
                 return Err(("text-differs-from-model".into(), "original".into(), json!({})));
             }
             Ok(h)
